@@ -49,12 +49,13 @@ type structInfo struct {
 }
 
 var (
-	fset      = token.NewFileSet()
-	structs   = map[string]*structInfo{}
-	methods   = map[string]map[string]*ast.FuncDecl{} // receiver type -> method name -> decl
-	funcs     []*ast.FuncDecl                         // package-level functions
-	entries   []entry
-	pkgPrefix string // "" for package logs, "logrimp." for utils/logs/logrimp
+	fset           = token.NewFileSet()
+	structs        = map[string]*structInfo{}
+	methods        = map[string]map[string]*ast.FuncDecl{} // receiver type -> method name -> decl
+	funcs          []*ast.FuncDecl                         // package-level functions
+	entries        []entry
+	pkgPrefix      string // "" for package logs, "logrimp." for utils/logs/logrimp
+	asyncCloseBoth bool
 )
 
 // construction-phase helpers: called before the object is published
@@ -579,6 +580,85 @@ func writeIfChanged(path, content string) {
 	}
 }
 
+// closesBothUnconditionally: in AsynchronousLoggers.Close, are eWriter.Close() and oWriter.Close() both called in an
+// unconditional position (a statement of the method body, or the init clause of such an if statement) with no return
+// statement anywhere before the second of them?
+func closesBothUnconditionally() bool {
+	m := methods["AsynchronousLoggers"]["Close"]
+	if m == nil || m.Body == nil {
+		die(token.NoPos, "AsynchronousLoggers.Close not found")
+	}
+	_, rv := recvOf(m)
+	seen := map[string]bool{}
+	isClose := func(n ast.Node) string {
+		call, ok := n.(*ast.CallExpr)
+		if !ok {
+			return ""
+		}
+		sel, ok := call.Fun.(*ast.SelectorExpr)
+		if !ok || sel.Sel.Name != "Close" {
+			return ""
+		}
+		in, ok := sel.X.(*ast.SelectorExpr)
+		if !ok {
+			return ""
+		}
+		id, ok := in.X.(*ast.Ident)
+		if !ok || id.Name != rv {
+			return ""
+		}
+		return in.Sel.Name
+	}
+	scanUncond := func(n ast.Node) { // calls evaluated whenever the statement is reached (closures and nested blocks excluded)
+		ast.Inspect(n, func(x ast.Node) bool {
+			switch x.(type) {
+			case *ast.FuncLit, *ast.BlockStmt:
+				return false
+			}
+			if f := isClose(x); f != "" {
+				seen[f] = true
+			}
+			return true
+		})
+	}
+	hasReturn := func(n ast.Node) bool {
+		r := false
+		ast.Inspect(n, func(x ast.Node) bool {
+			if _, ok := x.(*ast.FuncLit); ok {
+				return false
+			}
+			if _, ok := x.(*ast.ReturnStmt); ok {
+				r = true
+			}
+			return true
+		})
+		return r
+	}
+	for _, st := range m.Body.List {
+		switch x := st.(type) {
+		case *ast.IfStmt:
+			if x.Init != nil {
+				scanUncond(x.Init)
+			}
+			scanUncond(x.Cond)
+		case *ast.DeferStmt:
+			// a deferred Close runs on every path
+			if f := isClose(x.Call); f != "" {
+				seen[f] = true
+			}
+		default:
+			scanUncond(st)
+		}
+		if seen["eWriter"] && seen["oWriter"] {
+			return true
+		}
+		if hasReturn(st) {
+			return false
+		}
+	}
+	return false
+}
+
 // analyse adds the accesses of one package directory to [entries]
 func analyse(dir, prefix string, withInit bool) int {
 	structs = map[string]*structInfo{}
@@ -739,6 +819,9 @@ func analyse(dir, prefix string, withInit bool) int {
 	// also the promoted exported methods of embedded package-local structs are entry points of the outer type, but their
 	// accesses are exactly those listed under the embedded type: nothing to add.
 
+	if withInit {
+		asyncCloseBoth = closesBothUnconditionally()
+	}
 	return len(typeNames)
 }
 
@@ -770,9 +853,11 @@ func main() {
 		}
 		fmt.Fprintf(&b, "  mkEntry %s %s %s %s %s %s %s%s\n", coqString(e.Owner), coqString(e.Method), coqString(e.Field), acc, lk, ph, coqString(e.Pos), sep)
 	}
-	b.WriteString("].\n")
+	b.WriteString("].\n\n")
+	b.WriteString("(* log.go, AsynchronousLoggers.Close: eWriter.Close() and oWriter.Close() are both called in an unconditional\n   position, no return before the second of them *)\n")
+	fmt.Fprintf(&b, "Definition async_close_closes_both : bool := %v.\n", asyncCloseBoth)
 	writeIfChanged(filepath.Join(out, "Gen.v"), b.String())
-	js, _ := json.MarshalIndent(map[string]any{"source": dir, "entries": entries}, "", " ")
+	js, _ := json.MarshalIndent(map[string]any{"source": dir, "entries": entries, "async_close_closes_both": asyncCloseBoth}, "", " ")
 	writeIfChanged(filepath.Join(out, "loglocks.json"), string(js)+"\n")
 	fmt.Printf("loglocks2coq: %d accesses in %d struct types\n", len(entries), nTypes)
 }
